@@ -324,10 +324,23 @@ def run(tier):
             big += rng.choice(kinds)
         longs.append(big)
     oracle(chk, longs, "long", uncached_max_depth=-1)
+    # a long flat prefix followed by a nest, and the nest first: the work must not depend on how much was parsed before
+    # (and how full the memo table is)
+    flat = ["KeywordLet", "IdentifierValue", "OperatorEqual", "ControlBraceLeft", "Property", "PrimitiveInt", "ControlComma", "Property", "PrimitiveStr",
+            "ControlBraceRight", "ControlSemicolon"]
+    tails = nests([6, 10]) + construct_nests([6, 10])
+    if tier == "quick":
+        tails = rng.sample(tails, 24)
+    longnest = []
+    for reps in ([250, 1200] if tier == "quick" else [100, 250, 500, 1200, 3000]):
+        for t in tails:
+            longnest.append(flat * reps + t)
+            longnest.append(t + flat * reps)
+    oracle(chk, longnest, "long-prefix-then-nest", uncached_max_depth=-1)
     chk.cov["rule"] = ("families: fixed prefix (`let id =`, `res`, none) + every tail of <= k tokens over 7 sub-alphabets of the token kinds "
                        "(TLC Next appends one token); non-trivial = the parse consumes >= 4 tokens or hits the cache at least once; members are "
                        "distinct sequences. Beyond: nests to depth 200, the repository corpus, token-level mutants, concatenations of "
-                       "thousands of tokens.")
+                       "thousands of tokens, long flat prefixes (up to 3000 statements) followed / preceded by every kind of nest, sentences of the grammar enumerated by derivation depth.")
     chk.cov["exhaustive"] = True
     chk.assumptions = [
         "the uncached parser is exponential in bracket nesting: cached/uncached equality is decided up to the configured nesting (2-3 open brackets in TLC, 3-8 in the real code), the linear bound everywhere",
